@@ -12,22 +12,22 @@ import (
 func init() {
 	prop(&PropertySpec{
 		ID: "C03", Level: "other",
-		Rules: []string{"R03.1", "R03.2", "R03.3", "R03.4", "R03.5", "R03.6", "R03.7", "R07.6", "R17.1"},
+		Rules: []string{"R03.1", "R03.2", "R03.9", "R03.3", "R03.4", "R03.5", "R03.6", "R03.7", "R03.8", "R07.6", "R17.1"},
 		Explanation: "Decides the structural premises of exactly-once in-order delivery: R03.1 the subscribers map and every Replayer.Put/Replay invocation are confined to the single loop goroutine (only one go statement, started under sync.Once; no access from any function reachable from an exported entry point without crossing that go statement); " +
 			"R03.2 operation channels are unbuffered, reply channels buffered; R03.3 the fan-out Send is nested in exactly the main loop and the range over subscribers, is called on the current range value's Client, under topicsIntersect(sub.Topics, msg.topics) of the message received in this iteration, at one call site; " +
-			"R03.4 every successful Send is followed by Flush on the same client before the next subscriber; R03.5 every accepted message reaches the fan-out before the next select; R03.6 Publish's hand-off/return sources; R03.7 topicsIntersect is true only under an equality of an element of each argument and false after both loops; R07.6 the loop has no other blocking operation; R17.1 a failing subscriber does not end the fan-out for the subscribers after it.",
+			"R03.4 every successful Send is followed by Flush on the same client before the next subscriber; R03.5 every accepted message reaches the fan-out before the next select; R03.6 Publish's hand-off/return sources; R03.7 topicsIntersect is true only under an equality of an element of each argument and false after both loops; R03.8 the range over the subscribers is left only by exhausting the map (no return/break/goto out of the fan-out); R07.6 the loop has no other blocking operation; R17.1 a failing subscriber does not end the fan-out for the subscribers after it.",
 		NotDecided: "ordering/linearisation over all interleavings as a theorem (follows from the confinement and capacity rules by argument); 'delivered before cancellation was requested' timing.",
 	})
 	prop(&PropertySpec{
 		ID: "C04", Level: "other",
-		Rules: []string{"R04.1", "R04.2", "R04.3", "R03.1", "R03.5", "R08.1", "R08.2"},
+		Rules: []string{"R04.1", "R04.2", "R04.3", "R03.1", "R03.5", "R08.1", "R09.6", "R08.2"},
 		Explanation: "Decides the replay/live boundary structure: R04.1 Put precedes the fan-out whenever a replayer is configured; R04.2 the message handed to Send is loaded from the cell into which Put's ID-carrying result is stored whenever it is non-nil (and Put did not fail); " +
 			"R04.3 replay and registration happen in one loop iteration with no channel operation between them, the insert is reached exactly when Replay did not return a genuine error, and a failed replay sends the error, closes and does not register; R03.1 the replayer is only used from the loop goroutine (Put and Replay never overlap); R03.5 no select between accept and fan-out; R08.1/R08.2 automatic IDs are consecutive in Put order (a rejected Put consumes none), which the automatic-ID lookup relies on.",
 		NotDecided: "which elements each(i) visits for a given start index and what findIDInQueue computes for evicted/absent IDs (ring index arithmetic; only the start-index protocol R08.5 and the copy order R18.5 are decided), eviction arithmetic, equality of ID values beyond R04.2.",
 	})
 	prop(&PropertySpec{
 		ID: "C07", Level: "other",
-		Rules: []string{"R07.1", "R07.2", "R07.3", "R07.4", "R07.5", "R07.6", "R03.2", "R06.2"},
+		Rules: []string{"R07.1", "R07.2", "R07.3", "R07.4", "R07.5", "R07.6", "R03.9", "R06.2"},
 		Explanation: "Decides the structural premises of termination: R07.1 every blocking channel operation in Subscribe/Publish/Shutdown is a select with a receive from a channel that shutdown closes (j.done, j.closed, the call's own done channel, ctx.Done()) or a receive on the reply channel that R07.3 proves is always closed; " +
 			"R07.2 the loop registers, before its loop, defers that close j.closed and close every registered subscriber (so they also run on panic); R07.3 the reply channel is closed on every path of the message arm before the fan-out, with at most one (buffered) send before; " +
 			"R07.4 close(j.done) in Shutdown is covered by a deferred recover that turns the double close into ErrProviderClosed; R07.5 init() dominates every channel-field load in exported methods; R07.6 the loop's only blocking operations are its main select, buffered sends and user-interface calls.",
@@ -43,6 +43,7 @@ func init() {
 
 	register(&Rule{ID: "R03.1", Title: "subscribers map and replayer calls confined to the loop goroutine", Floor: 4, Run: r03_1})
 	register(&Rule{ID: "R03.3", Title: "fan-out shape: one guarded Send per subscriber per message", Floor: 4, Run: r03_3})
+	register(&Rule{ID: "R03.8", Title: "the fan-out range is left only by exhausting the subscribers map", Floor: 1, Run: r03_8})
 	register(&Rule{ID: "R03.4", Title: "successful Send is followed by Flush on the same client", Floor: 1, Run: r03_4})
 	register(&Rule{ID: "R03.5", Title: "accepted message reaches the fan-out before the next select", Floor: 1, Run: r03_5})
 	register(&Rule{ID: "R03.6", Title: "Publish hand-off and return sources", Floor: 4, Run: r03_6})
@@ -1243,8 +1244,8 @@ func r07_6(c *Ctx) {
 			bad := ""
 			switch x := in.(type) {
 			case *ssa.Select:
-				if x != jp.sel {
-					bad = "a second select"
+				if x != jp.sel && x.Blocking {
+					bad = "a second blocking select"
 				}
 			case *ssa.UnOp:
 				if x.Op == token.ARROW {
@@ -1611,4 +1612,59 @@ func posOfInstr(P *Program, in ssa.Instruction, fn *ssa.Function) string {
 		return P.ipos(in)
 	}
 	return P.pos(fn.Pos())
+}
+
+func r03_8(c *Ctx) {
+	P := c.P
+	lp := findLoop(P)
+	if lp.fn == nil || lp.next == nil {
+		c.anchor("range over subscribers in the message arm")
+		return
+	}
+	fn := lp.fn
+	// the natural loop headed by the Next block
+	var rl *Loop
+	for _, l := range loopsOf(fn) {
+		if l.Head == lp.next.Block() {
+			rl = l
+		}
+	}
+	name := fnLabel(fn) + ":fan-out-exits"
+	if rl == nil {
+		c.undecided(name, P.ipos(lp.next), "the range over the subscribers is not a natural loop")
+		return
+	}
+	okExit := func(v ssa.Value) bool {
+		e, ok := v.(*ssa.Extract)
+		return ok && e.Index == 0 && e.Tuple == ssa.Value(lp.next)
+	}
+	var offender ssa.Instruction
+	for b := range rl.Blocks {
+		for i, s := range b.Succs {
+			if rl.Blocks[s] {
+				continue
+			}
+			// the only legal exit: the false edge of the range's ok
+			ifi, isIf := b.Instrs[len(b.Instrs)-1].(*ssa.If)
+			legal := false
+			if isIf {
+				if t, ok := boolEdge(ifi, okExit); ok && i == 1-t {
+					legal = true
+				}
+			}
+			if !legal && offender == nil {
+				offender = b.Instrs[len(b.Instrs)-1]
+			}
+		}
+		// a return or panic inside the loop body
+		for _, in := range b.Instrs {
+			switch in.(type) {
+			case *ssa.Return, *ssa.Panic:
+				if offender == nil {
+					offender = in
+				}
+			}
+		}
+	}
+	c.check(offender == nil, name, posOfInstr(P, offender, fn), "the fan-out is left only when every registered subscriber was visited", "the range over the subscribers can be left early (return/break/goto at "+posOfInstr(P, offender, fn)+"): subscribers not yet visited never get a message whose Publish already returned")
 }
